@@ -16,8 +16,6 @@ def param_grid(ctx, rng):
     """(f, p, small?) for all shapes / flags / layouts / counts / colour sets"""
     maxdim = 8 if ctx.quick else 13
     shapes = [(h, w) for h in range(1, maxdim + 1) for w in range(1, maxdim + 1)]
-    if ctx.quick:
-        shapes = [s for s in shapes if s[0] <= 6 or s[1] <= 6 or s[0] == s[1]]
     out = []
     for (h, w) in shapes:
         small = h * w <= 20 if ctx.quick else h * w <= 25
@@ -25,8 +23,6 @@ def param_grid(ctx, rng):
             for re in (False, True):
                 out.append(('empty', {'shape': [h, w], 'random_agent': ra, 'random_exit': re}, small))
         for layout in itertools.product(range(0, 5), repeat=2):
-            if ctx.quick and (h + w + layout[0] + layout[1]) % 2:
-                continue
             out.append(('rooms', {'shape': [h, w], 'layout': list(layout)}, False))
         for n in [-1, 0, 1, 2, 3, (h - 2) * (w - 2) - 3, (h - 2) * (w - 2) - 2, (h - 2) * (w - 2) - 1, 40]:
             for ra in (False, True):
@@ -47,6 +43,65 @@ def param_grid(ctx, rng):
     return out
 
 
+def design_part(ctx, rng):
+    """the drawing primitives of design.py against GVDesign (conformance of the layer the reset functions are built on)"""
+    from harness import proj, steps
+    from harness.tlc import run_tlc
+    from gym_gridverse import design
+    from gym_gridverse.geometry import Area
+    from gym_gridverse.grid import Grid
+    from gym_gridverse.grid_object import Floor, Wall, Exit, MovingObstacle
+
+    facts = {'Wall': Wall, 'Exit': Exit, 'MovingObstacle': MovingObstacle, 'Floor': Floor}
+    recs = []
+    for k in range(300 if ctx.quick else 5000):
+        h, w = rng.randint(1, 8), rng.randint(1, 8)
+        grid = Grid.from_shape((h, w))
+        for _ in range(rng.randint(0, 4)):
+            grid[rng.randrange(h), rng.randrange(w)] = rng.choice([Wall, Exit, MovingObstacle])()
+        before = proj.grid_to_json(grid)
+        oname = rng.choice(list(facts))
+        ys = sorted(rng.sample(range(h), rng.randint(1, min(h, 3))))
+        xs = sorted(rng.sample(range(w), rng.randint(1, min(w, 3))))
+        y0, y1 = sorted([rng.randrange(h), rng.randrange(h)])
+        x0, x1 = sorted([rng.randrange(w), rng.randrange(w)])
+        area = [[y0, y1], [x0, x1]]
+        op = rng.choice(['draw_wall_boundary', 'draw_room', 'draw_area', 'draw_room_grid', 'draw_line_horizontal', 'draw_line_vertical', 'draw_cartesian_product'])
+        rec = {'id': k, 'op': op, 'grid': before, 'obj': steps.O(oname), 'area': area, 'fill': bool(rng.getrandbits(1)), 'ys': ys, 'xs': xs, 'y': ys[0], 'x': xs[0]}
+        f = facts[oname]
+        if op == 'draw_wall_boundary':
+            pos = design.draw_wall_boundary(grid)
+        elif op == 'draw_room':
+            pos = design.draw_room(grid, Area(tuple(area[0]), tuple(area[1])), f)
+        elif op == 'draw_area':
+            pos = design.draw_area(grid, Area(tuple(area[0]), tuple(area[1])), f, fill=rec['fill'])
+        elif op == 'draw_room_grid':
+            pos = design.draw_room_grid(grid, ys, xs, f)
+        elif op == 'draw_line_horizontal':
+            pos = design.draw_line_horizontal(grid, ys[0], xs, f)
+        elif op == 'draw_line_vertical':
+            pos = design.draw_line_vertical(grid, ys, xs[0], f)
+        else:
+            pos = design.draw_cartesian_product(grid, ys, xs, f)
+        rec['after'] = proj.grid_to_json(grid)
+        rec['positions'] = [[int(p.y), int(p.x)] for p in pos]
+        recs.append(rec)
+    path = os.path.join(ctx.work, 'design.ndjson')
+    with open(path, 'w') as fh:
+        for r in recs:
+            fh.write(json.dumps(r, separators=(',', ':')) + '\n')
+    res = run_tlc('Trace_Design', env={'TRACE_FILE': path}, workers=1, timeout=1200)
+    ctx.add_tlc(res, 'Trace_Design (drawing primitives of design.py)')
+    if res.find('DONE')[0][1] != len(recs):
+        raise RuntimeError('Trace_Design did not validate every record')
+    for t in res.find('BAD'):
+        r = recs[t[1]]
+        ctx.drift(f"design.{r['op']} differs from GVDesign on a {len(r['grid'])}x{len(r['grid'][0])} grid (ys={r['ys']} xs={r['xs']} area={r['area']})")
+    ctx.add_counts(evaluations=len(recs), traces=len(recs))
+    ctx.add_part('drawing primitives (design.py) vs GVDesign', records=len(recs), mismatches=len(res.find('BAD')))
+    os.remove(path)
+
+
 def run(ctx, replay=None):
     rng = random.Random(ctx.seed)
     jobs = []
@@ -59,7 +114,7 @@ def run(ctx, replay=None):
                            'ValueError for refusals, MustAccept_<f>(p) for documented-valid parameters; distinct_nontrivial = distinct returned states')
         ctx.assumptions += ['a function may refuse parameters it could have honoured (not a violation) except those in MustAccept (its documented domain)']
         grid = param_grid(ctx, rng)
-        seeds = 3 if ctx.quick else 30
+        seeds = 5 if ctx.quick else 30
         rid = 0
         for (f, p, small) in grid:
             for s in range(seeds):
@@ -87,6 +142,8 @@ def run(ctx, replay=None):
             ctx.violation(what, {'kind': 'reset', 'f': rec['f'], 'p': rec['p'], 'seed': rec['seed'], 'clauses': mine, 'state': rec['st']}, key=key)
         else:
             ctx.drift(f"{rec['f']}({json.dumps(rec['p'])}) returned a state outside the generative set Init_{rec['f']}: [{sst(rec['st'])}]")
+    if not replay:
+        design_part(ctx, rng)
     with open(paths[0]) as f:
         for line in f:
             rec = json.loads(line)
